@@ -1425,7 +1425,7 @@ func (h *ResponseHeader) setSpecialHeader(key, value []byte) bool {
 			h.SetContentEncodingBytes(value)
 			return true
 		case caseInsensitiveCompare(strConnection, key):
-			if bytes.Equal(strClose, value) {
+			if hasHeaderValue(value, strClose) {
 				// Connection is single-valued: drop an earlier value, as
 				// ResetConnectionClose does in the other direction.
 				h.h = delAllArgsStable(h.h, HeaderConnection)
@@ -1491,7 +1491,7 @@ func (h *RequestHeader) setSpecialHeader(key, value []byte) bool {
 			}
 			return true
 		case caseInsensitiveCompare(strConnection, key):
-			if bytes.Equal(strClose, value) {
+			if hasHeaderValue(value, strClose) {
 				// Connection is single-valued: drop an earlier value, as
 				// ResetConnectionClose does in the other direction.
 				h.h = delAllArgsStable(h.h, HeaderConnection)
@@ -3078,7 +3078,7 @@ func (h *ResponseHeader) parseHeaders(buf []byte) (int, error) {
 				continue
 			}
 			if caseInsensitiveCompare(s.key, strConnection) {
-				if bytes.Equal(s.value, strClose) {
+				if hasHeaderValue(s.value, strClose) {
 					h.connectionClose = true
 				} else {
 					h.connectionClose = false
@@ -3268,7 +3268,7 @@ func (h *RequestHeader) parseHeaders(buf []byte, blockEnd int) (int, error) {
 				continue
 			}
 			if caseInsensitiveCompare(s.key, strConnection) {
-				if bytes.Equal(s.value, strClose) {
+				if hasHeaderValue(s.value, strClose) {
 					h.connectionClose = true
 				} else {
 					h.connectionClose = false
